@@ -31,6 +31,12 @@ if '"%s": {' % pid in s:
     m = re.search(r'"coq_targets": (\[.*?\])', old_block)
     if not targets and m:
         entry['coq_targets'] = json.loads(m.group(1))
+    # a field the ready file leaves "unchanged" (or empty) keeps its registered value
+    for key in ('text', 'note', 'technique'):
+        mo = re.search(r'"%s": (?:COMMON_NOTE \+ )?("(?:[^"\\]|\\.)*")' % key, old_block)
+        new = (entry[key] or '').strip()
+        if mo and (not new or new.lower().startswith('unchanged')):
+            entry[key] = json.loads(mo.group(1))
     s = s[:i] + s[j:]
 def mkblock():
     return '    "%s": {\n        "text": %s,\n        "design_ref": %s,\n        "note": COMMON_NOTE + %s,\n        "technique": %s,\n        "coq_targets": %s,\n    },\n' % (
